@@ -338,6 +338,16 @@ fn main() {
         }
         std::fs::write(&large, t).unwrap();
     }
+    // between the default pipe capacity (64 KiB) and 1 MiB: whether the source fits a pipe buffer matters to
+    // any scheme that writes stdin and reads stdout from one thread
+    let medium = scratch.path("medium.h");
+    {
+        let mut t = String::new();
+        for i in 0..(2500 + rng.below(200)) {
+            t.push_str(&format!("int function_with_a_long_name_{i}(int argument_a, unsigned long argument_b);\n"));
+        }
+        std::fs::write(&medium, t).unwrap();
+    }
     let cfg = scratch.path("rustfmt.toml");
     std::fs::write(&cfg, "max_width = 90\n").unwrap();
     let variants_all = vec![
@@ -371,7 +381,7 @@ fn main() {
 
     let wide = scratch.path("wide.h");
     std::fs::write(&wide, "int function_with_a_long_name_0(int argument_number_one, unsigned long argument_number_two, const char *argument_number_three);\n").unwrap();
-    for (size_name, header) in [("small", &small), ("wide", &wide), ("large", &large)] {
+    for (size_name, header) in [("small", &small), ("wide", &wide), ("medium", &medium), ("large", &large)] {
         // quick: all variants on the small input, two on the large one; thorough: everything
         let variants: Vec<&Variant> = if size_name == "wide" { vec![&variants_all[0]] } else if size_name == "small" || args.thorough() { variants_all.iter().collect() } else { vec![&variants_all[1], &variants_all[3]] };
         for (vi, v) in variants.iter().enumerate() {
@@ -386,7 +396,7 @@ fn main() {
             };
             // model: formatter none
             let mut reqs = vec![request(Fm::None, "o=spawn utf8=1 st=code:0", v, &version)];
-            let scripts: Vec<(usize, &Fault)> = fl.iter().enumerate().filter(|(_, f)| size_name != "wide" && (!f.large_only || size_name == "large")).collect();
+            let scripts: Vec<(usize, &Fault)> = fl.iter().enumerate().filter(|(_, f)| size_name != "wide" && (!f.large_only || size_name == "large" || size_name == "medium")).collect();
             for (_, f) in &scripts {
                 reqs.push(request(Fm::Rustfmt, f.outcome, v, &version));
             }
@@ -420,7 +430,7 @@ fn main() {
             }
             // ---- rustfmt with scripted formatters
             for (k, (fi, f)) in scripts.iter().enumerate() {
-                let path = install(&scratch.0, f, *fi * 100 + vi * 10 + if size_name == "large" { 1 } else { 0 });
+                let path = install(&scratch.0, f, *fi * 100 + vi * 10 + if size_name == "large" { 1 } else if size_name == "medium" { 2 } else { 0 });
                 let case = format!("{size_name}/v{vi}/{}", f.name);
                 let (obs, secs) = run_case(header, v, Fm::Rustfmt, Some(&path), &cfg, timeout);
                 max_secs = max_secs.max(secs);
